@@ -4,6 +4,7 @@
 set -e
 cd "$(dirname "$0")/.."
 export PATH=/usr/bin:$PATH
+python3 tools/coqgen.py
 cd coq
 coq_makefile -f _CoqProject -o Makefile
 timeout 3000 make -j"$(nproc)"
